@@ -32,7 +32,26 @@ def c15_nontrivial(line):
     f = line.split(" ; ")[0].split()
     return f[0] == "C15C" or len(f[1]) > 3      # at least two characters
 
+def c05_nontrivial(line):
+    f = line.split(" ; ")[0].split()
+    return f[2] != "0"                             # the handler returns a non-OK status
+
 PROPS = {
+    "C05": dict(
+        rule="a handler returning a scripted status (23 codes incl. 0, 17..20, 2^31, 2^32-1; ~80 messages: empty, ASCII, "
+             "'%' in every position, control bytes, multi-byte UTF-8, 122..124 and 1500 bytes, all strings of length <=2 over "
+             "{a,%,space,~,0x1f,0x7f,u-umlaut}; with/without details; before any reply or after k replies) on HTTP+JSON, "
+             "HTTP+protobuf, Twirp, gRPC (proto and json codec), gRPC-web, gRPC-web-text (all in-process through ServeHTTP) "
+             "and WebSocket (loopback). Bodies are decoded with protojson/proto; percent escapes, frames and base64 are decoded "
+             "by the extracted Coq functions. non-trivial = non-OK status",
+        nontrivial=c05_nontrivial,
+        assumptions=["the HTTP status table of code.go at the pinned commit is the documented mapping",
+                     "optional whitespace at either end of grpc-message is not part of a header value (RFC 7230) and is compared modulo trimming",
+                     "an error before any reply on gRPC-web may be a trailers-only response (status in the HTTP headers)",
+                     "messages are valid UTF-8 (status.New with invalid UTF-8 cannot be marshalled by protobuf-go)"],
+        trusted=["grpc-go's decodeGrpcMessageUnchecked is modelled in Base/Pct.v; encoding/base64 in Base/B64.v (base64.NewEncoder+Close assumed equal to one-shot encoding)",
+                 "gobwas/ws framing and net/http trailers are the libraries' (observed through a loopback client / ResponseRecorder)"],
+    ),
     "C15": dict(
         rule="grpc-timeout strings sent through the real gRPC entry (every string of length <=3 over {0,1,9,+,-,space,H,S,m,x}; "
              "1..9 digits x 6 units + bad units with leading zeros / all nines / powers of ten; random strings); the handler's "
